@@ -255,6 +255,18 @@ theorem registry_pow_is_not_elementwise (t : HType) (h : FnRegistry.isNum t = tr
     FnRegistry.applyOk "pow" [t, .array t] (.array t) = false ∧ FnRegistry.applyOk "pow" [.array t, t] (.array t) = false :=
   FnRegistry.vectorised_pow_not_elementwise t h hne
 
+/-- `NDArrayMatMul`: a vector times an n-dimensional array (either side) has rank n − 1 — it is 1 only for n = 2, so a front end
+that reports rank 1 for every vector product disagrees with the engine from rank 3 on -/
+theorem matmul_rank_vector (n : Nat) :
+    FnRegistry.matMulNDims 1 (n + 2) = n + 1 ∧ FnRegistry.matMulNDims (n + 2) 1 = n + 1 ∧
+    FnRegistry.matMulNDims (n + 2) (n + 2) = n + 2 ∧ FnRegistry.matMulNDims 1 1 = 0 := by
+  refine ⟨?_, ?_, ?_, rfl⟩ <;> simp [FnRegistry.matMulNDims]
+
+theorem matmul_rank_vector_not_one (n : Nat) (h : 3 ≤ n) :
+    FnRegistry.matMulNDims 1 n ≠ 1 ∧ FnRegistry.matMulNDims n 1 ≠ 1 := by
+  obtain ⟨k, rfl⟩ : ∃ k, n = k + 3 := ⟨n - 3, by omega⟩
+  constructor <;> simp [FnRegistry.matMulNDims]
+
 /-- **the coerced call is well typed**: `a.append(x)` emitted as `(Apply append Array[t] a (Cast x t))` — the item converted to the
 element type first — is typable whenever `a : array<t>` and `x` is of a type that converts to `t`; … -/
 theorem coerced_append_well_typed (Γ : Ctx) (Δ : Option Ctx) (a x : IR) (s t : HType)
